@@ -31,6 +31,7 @@ type repeatCase struct {
 	Trim    bool
 	Twin    bool // list: two functions of one name and file with different start lines, sampled far apart
 	TreeTie bool // call trees: identical subtrees under two roots whose totals cancel
+	Deep    bool // with TreeTie: two stacks that differ near the root and share more than 64 innermost frames
 }
 
 var tieOpts = gen.Opts{Alpha: gen.Plain, MaxSamples: 8, MaxDepth: 5, MaxLines: 3, MinTypes: 1, MaxTypes: 2, SmallVals: true, AnyIDs: true, NoHugeIDs: true,
@@ -40,7 +41,7 @@ var formats = []string{"top", "tree", "peek", "dot", "callgrind", "tags", "trace
 
 func genRepeat(t *rapid.T) *repeatCase {
 	p := rep.GenProfile(t, tieOpts)
-	c := &repeatCase{P: p, C: rep.GenConf(t, p, formats), NegMask: rapid.IntRange(0, 255).Draw(t, "negmask"), Trim: rapid.Bool().Draw(t, "trim"), Twin: rapid.Bool().Draw(t, "twin"), TreeTie: rapid.IntRange(0, 3).Draw(t, "treetie") == 0}
+	c := &repeatCase{P: p, C: rep.GenConf(t, p, formats), NegMask: rapid.IntRange(0, 255).Draw(t, "negmask"), Trim: rapid.Bool().Draw(t, "trim"), Twin: rapid.Bool().Draw(t, "twin"), TreeTie: rapid.IntRange(0, 3).Draw(t, "treetie") == 0, Deep: rapid.IntRange(0, 3).Draw(t, "deep") == 0}
 	if c.TreeTie {
 		c.C.CallTree = true
 		c.C.Format = rapid.SampledFrom([]string{"dot", "dot", "callgrind"}).Draw(t, "treefmt")
@@ -127,6 +128,22 @@ func tieProfile(c *repeatCase) *profile.Profile {
 			}
 		}
 		p.Sample = append(p.Sample, extra...)
+		if c.Deep && len(p.Location) > 0 {
+			// main -> rootA|rootB -> (one frame repeated 70 times) -> leaf, one sample each
+			rec := p.Location[0]
+			for _, r := range roots {
+				st := []*profile.Location{rec}
+				for i := 0; i < 70; i++ {
+					st = append(st, rec)
+				}
+				st = append(st, r)
+				v := make([]int64, len(p.SampleType))
+				for j := range v {
+					v[j] = 1
+				}
+				p.Sample = append(p.Sample, &profile.Sample{Location: st, Value: v})
+			}
+		}
 	}
 	// conflicting units for the numeric tags of several keys (warnings must come in a fixed order too)
 	if c.NegMask&1 != 0 {
@@ -614,4 +631,57 @@ func checkDis(c *disCase, o *vk.Obs) []string {
 func TestPropDisasm(t *testing.T) {
 	vk.Main(t, vk.Spec[disCase]{ID: "C08", Facet: "disasm", Quick: 400, Thorough: 3000, Gen: genDis, Check: checkDis, Journal: true,
 		Rule: "profiles over 2..5 symbols of one binary with small values of either sign (ties in flat and cum, entries ranked differently by flat and by cum), assembly listing through the command line (-disasm) and through the web UI (/disasm, which orders the symbols by weight) with an object tool supplied by the harness, 6 repetitions; oracle: byte-identical output; every case is non-trivial"})
+}
+
+// ---- facet serialize: writing the same profile again gives the same bytes ----
+
+type serCase struct {
+	P   *gen.Prof
+	Ops []int // 0 Write, 1 WriteUncompressed, 2 Copy then WriteUncompressed, 3 String
+}
+
+var serOpts = gen.Opts{Alpha: gen.Plain, MaxSamples: 6, MaxDepth: 4, MaxLines: 3, MinTypes: 1, MaxTypes: 3, AnyIDs: true, Unused: true, Labels: true, NumLabels: true,
+	EmptyStacks: true, NoMapping: true, Unsym: true, Header: true, Columns: true, Folded: true}
+
+func genSer(t *rapid.T) *serCase {
+	return &serCase{P: gen.Profile(t, serOpts), Ops: rapid.SliceOfN(rapid.IntRange(0, 3), 2, 6).Draw(t, "ops")}
+}
+
+func checkSer(c *serCase, o *vk.Obs) []string {
+	var e vk.Errs
+	p := c.P.Build()
+	if rapid0 := len(c.Ops) % 2; rapid0 == 0 {
+		p = p.Copy() // a parsed profile
+	}
+	var raw0, gz0 bytes.Buffer
+	p.WriteUncompressed(&raw0)
+	p.Write(&gz0)
+	o.NonTrivial = len(p.Comments) > 0 || len(p.Sample) > 0
+	o.LabelIf(len(p.Comments) > 0, "has-comments")
+	for i, op := range c.Ops {
+		var b bytes.Buffer
+		want := raw0.Bytes()
+		switch op {
+		case 0:
+			p.Write(&b)
+			want = gz0.Bytes()
+		case 1:
+			p.WriteUncompressed(&b)
+		case 2:
+			p.Copy().WriteUncompressed(&b)
+		default:
+			_ = p.String()
+			continue
+		}
+		if !bytes.Equal(b.Bytes(), want) {
+			e.Addf("serialization %d (op %d) of the unchanged profile gives %d bytes that differ from the first serialization (%d bytes); comments %q", i+1, op, b.Len(), len(want), p.Comments)
+			break
+		}
+	}
+	return e
+}
+
+func TestPropSerialize(t *testing.T) {
+	vk.Main(t, vk.Spec[serCase]{ID: "C08", Facet: "serialize", Quick: 3000, Thorough: 30000, Gen: genSer, Check: checkSer,
+		Rule: "generated profiles (comments, header fields, labels, sparse ids), fresh or parsed, serialized 2..6 more times through Write / WriteUncompressed / Copy+WriteUncompressed with String calls in between; oracle: every serialization is byte-identical to the first of its kind; non-trivial = the profile has comments or samples"})
 }
